@@ -19,8 +19,8 @@ CLAIMED = {
          "machine-checked proof in Coq (structural) + twin-history correspondence wrapper vs core", "DESIGN.md 7 C16"),
 }
 CLAIMED.update({
- "C03": ("Coq theorems in ideal arithmetic for the polynomial resamplers (the code with unchecked indexing): under an invariant established by the constructors, every valid process_into_buffer call at constant ratio returns Ok in a model where a read or write outside a buffer is the outcome UB, a failed slice operation Panic and an exhausted loop Diverge; lifted by induction to every history of such calls; no spurious Err for all seven types (C13). All margins, window offsets and size formulas are regenerated from source. Sinc and FFT types, and ratio changes, are covered by the bit-exact executable model (it predicts every crash of the recorded finding classes) rather than by theorem.",
-         TB + "Ideal arithmetic (rounding erased). Outside the theorems: ratio changes; sinc/FFT types. Known findings: known_findings.json (6 classes). Axioms: Reals.",
+ "C03": ("Coq theorems in ideal arithmetic for the polynomial resamplers (the code with unchecked indexing) and for SincFixedIn / SincFixedOut (kernel asserts, any set_chunk_size schedule): under an invariant established by the constructors, every valid process_into_buffer call at constant ratio returns Ok in a model where a read or write outside a buffer is the outcome UB, a failed slice operation Panic and an exhausted loop Diverge; lifted by induction to every history of such calls; no spurious Err for all seven types (C13). All margins, window offsets and size formulas are regenerated from source. The FFT types, and ratio changes, are covered by the bit-exact executable model (it predicts every crash of the recorded finding classes) rather than by theorem.",
+         TB + "Ideal arithmetic (rounding erased). Outside the theorems: ratio changes; FFT types. Known findings: known_findings.json (6 classes). Axioms: Reals.",
          "machine-checked proof in Coq (invariant by induction over the call list, R arithmetic) + bit-exact correspondence incl. predicted panics/aborts", "DESIGN.md 7 C03"),
  "C04": ("Coq theorems (ideal arithmetic): a valid call of FastFixedIn consumes exactly input_frames_next and writes n <= output_frames_next frames, of FastFixedOut exactly input_frames_next / output_frames_next; next <= max for FastFixedIn, SincFixedIn (outputs) and FastFixedOut (inputs) whenever the ratios are inside the accepted range. Getter formulas regenerated from source. Other types by the bit-exact model plus the count predicates on every trace.",
          TB + "Ideal arithmetic; the binary64 version of next <= max is not formalised. Axioms: Reals.",
@@ -28,7 +28,7 @@ CLAIMED.update({
  "C06": ("Coq theorems (ideal arithmetic) on the regenerated stepping formulas of all four asynchronous types: closed form of the evaluation instants, spacing t + k*inc with inc = (1/new - 1/old)/A, spacing inside [1/old,1/new], monotone, positive and reaching 1/new for k <= A, immediate for non-ramped changes, 1/new from the next chunk; the unrestricted fixed-input statement is refuted in Coq (recorded finding).",
          TB + "Ideal arithmetic. 'Computed from supplied frames' is covered for constant ratio by C03; fixed-output ramps are a recorded finding. Axioms: Reals.",
          "machine-checked proof in Coq (closed forms by induction, lra/nra) + instants observed exactly through Linear interpolation of an index ramp", "DESIGN.md 7 C06"),
- "C07": ("Coq theorems (ideal arithmetic): for FastFixedIn and FastFixedOut, over every history of valid calls at constant ratio, last_index' - last_index = nout/r - nin (telescoping) with last_index confined by the invariant, hence |nout - r*nin| <= r*(8 + 1/r + 3) + 3 independent of the number of calls. Sinc and FFT types: balance predicates on every sampled stream against the bit-exact model.",
+ "C07": ("Coq theorems (ideal arithmetic): for FastFixedIn/Out and SincFixedIn/Out (any set_chunk_size schedule), over every history of valid calls at constant ratio, last_index' - last_index = nout/r - nin (telescoping) with last_index confined by the invariant, hence |nout - r*nin| <= r*(L + 1/r + 3) + 3 independent of the number of calls. FFT types: balance predicates on every sampled stream against the bit-exact model.",
          TB + "Ideal arithmetic; float drift not bounded by theorem. Axioms: Reals.",
          "machine-checked proof in Coq (telescoping invariant by induction) + correspondence and balance predicates on long streams", "DESIGN.md 7 C07"),
  "C14": ("Coq theorems (ideal arithmetic): output frame j of a polynomial resampler is evaluated at input instant -4 + (j+1)/r, so the true delay is 4r-1 output frames and the reported floor(8r/2) is within one frame; FFT types report fft_size_out/2; sinc types report floor(sinc_len*r/2), which is NOT their alignment (recorded finding, confirmed by impulse measurements).",
